@@ -83,7 +83,7 @@ var opList = []string{"add", "sub", "double", "neg", "condneg", "condsel", "set"
 
 func propPairOps(t *rapid.T) {
 	p, q, rel := gen.PointPair(t, "pq")
-	op := rapid.SampledFrom(opList).Draw(t, "op")
+	op := gen.Sampled(opList).Draw(t, "op")
 	alias := rapid.IntRange(0, 4).Draw(t, "alias")
 	ctrl := gen.Ctrl(t, "ctrl")
 	if alias >= 3 {
